@@ -411,7 +411,9 @@ func filterHistory(g *Gen, o *Out, n int) {
 		return fmt.Sprintf("ok %T %s", res, canonResult(res))
 	}
 	for i := 0; i < n; i++ {
-		mk := func(x int, keep bool) map[string]interface{} { return map[string]interface{}{"x": x, "keep": keep, "s": fmt.Sprint(x)} }
+		mk := func(x int, keep bool) map[string]interface{} {
+			return map[string]interface{}{"x": x, "keep": keep, "s": fmt.Sprint(x)}
+		}
 		var rows []map[string]interface{}
 		for j, k := 0, 3+g.r.Intn(5); j < k; j++ {
 			rows = append(rows, mk(g.r.Intn(3), g.r.Intn(3) != 0))
@@ -472,11 +474,25 @@ func filterHistory(g *Gen, o *Out, n int) {
 				o.finding(Finding{Property: "C13", Kind: "failing-input", What: "Execute modified its input (or the backing array behind it)", Request: req, Detail: text})
 				copy(backing, rows)
 			}
+			if res, err := safeExecuteFilter(f, d); err == nil && res != nil && d != nil {
+				rv, dv := reflect.ValueOf(res), reflect.ValueOf(d)
+				if (rv.Kind() == reflect.Slice || rv.Kind() == reflect.Map) && rv.Kind() == dv.Kind() && rv.Len() > 0 && rv.Pointer() == dv.Pointer() {
+					o.finding(Finding{Property: "C17", Kind: "failing-input", What: fmt.Sprintf("Execute returned its input %T itself (same backing store), not a new container", d), Request: req, Detail: text})
+				}
+			}
 			if got != want {
 				what := fmt.Sprintf("call %d of one Filter (inputs so far %v) returns %.160s, a Filter created for this call returns %.160s", h, hist, got, want)
 				o.finding(Finding{Property: "C17", Kind: "failing-history", What: what, Request: req, Detail: text})
 				o.finding(Finding{Property: "C13", Kind: "failing-history", What: what, Request: req, Detail: text})
 			}
+			if g.r.Intn(3) == 0 && len(structs) > 1 {
+				// the caller changes the pointees in place between two calls: a verdict remembered per element
+				// pointer would be stale
+				j := g.r.Intn(len(structs))
+				structs[j].J, structs[j].Y = (structs[j].J+1)%3, fmt.Sprint((structs[j].J+1)%3)
+				rows[g.r.Intn(len(rows))]["x"] = g.r.Intn(3)
+			}
+			copy(backing, rows)
 		}
 	}
 }
